@@ -20,13 +20,14 @@ import (
 var errPkgDirs = []string{"", "field", "encoding", "prefix", "padding", "sort", "utils", "errors", "network", "specs"}
 
 // argument classes:
-//   int    formatted with %d or an integer-looking expression
-//   type   %T
-//   wrap   an error value (err, %w / %v / %s)
-//   tag    a field id / subfield tag / path / index (identifies a field, is not field content)
-//   desc   a spec description
-//   const  a string literal or constant
-//   value  anything else: potentially derived from field contents
+//
+//	int    formatted with %d or an integer-looking expression
+//	type   %T
+//	wrap   an error value (err, %w / %v / %s)
+//	tag    a field id / subfield tag / path / index (identifies a field, is not field content)
+//	desc   a spec description
+//	const  a string literal or constant
+//	value  anything else: potentially derived from field contents
 func classifyArg(verb string, e ast.Expr) string {
 	src := exprText(e)
 	switch verb {
